@@ -1249,7 +1249,7 @@ func (c *FnCtx) execLookup(st *State, in *ssa.Lookup) Val {
 
 func (c *FnCtx) execReturn(st *State, in *ssa.Return) {
 	c.retCount++
-	c.vacuity = append(c.vacuity, &vacuityCheck{what: "return reachable: " + c.eng.srcLine(in.Pos()), cmdN: len(c.cmds), reach: st.reach})
+	c.vacuity = append(c.vacuity, &vacuityCheck{what: "return reachable: " + c.eng.srcLine(in.Pos()) + c.occurrence(in.Pos()), cmdN: len(c.cmds), reach: st.reach})
 	vars := map[string]Val{}
 	for i, r := range in.Results {
 		if i < len(c.results) {
@@ -1275,4 +1275,34 @@ func (c *FnCtx) execReturn(st *State, in *ssa.Return) {
 		}
 		c.oblige(st, "post", name+"@"+c.eng.srcLine(in.Pos()), in.Pos(), env.evalBool(cl.E), "postcondition: "+cl.Text, cl.Tags)
 	}
+}
+
+// occurrence returns " #k" when the source line at pos is the k-th of several identical lines in the function.
+func (c *FnCtx) occurrence(pos token.Pos) string {
+	if !pos.IsValid() || c.fn.Syntax() == nil {
+		return ""
+	}
+	p := c.eng.prog.Fset.Position(pos)
+	text := c.eng.srcLine(pos)
+	first := c.eng.prog.Fset.Position(c.fn.Pos()).Line
+	last := c.eng.prog.Fset.Position(c.fn.Syntax().End()).Line
+	lines := c.eng.srcLines[p.Filename]
+	k, mine, total := 0, 0, 0
+	for ln := first; ln <= last && ln-1 < len(lines); ln++ {
+		t := lines[ln-1]
+		if j := strings.Index(t, " //"); j >= 0 && !strings.Contains(t[j:], "\"") {
+			t = t[:j]
+		}
+		if strings.Join(strings.Fields(t), " ") == text {
+			k++
+			total++
+			if ln == p.Line {
+				mine = k
+			}
+		}
+	}
+	if total <= 1 {
+		return ""
+	}
+	return fmt.Sprintf(" #%d", mine)
 }
